@@ -696,7 +696,11 @@ def jsonable(v):
     if isinstance(v, (tuple, list)):
         return [jsonable(x) for x in v]
     if isinstance(v, frozenset):
-        return sorted((jsonable(x) for x in v), key=repr)
+        items = [jsonable(x) for x in v]
+        try:
+            return sorted(items)
+        except TypeError:
+            return sorted(items, key=repr)
     return v
 
 
